@@ -471,7 +471,7 @@ func (w *world) setStats(f []string) bool {
 		if err != nil {
 			return false
 		}
-		prob, ok := parseRatFloat(p[1])
+		prob, ok := parseStored(p[1])
 		if !ok {
 			return false
 		}
@@ -915,7 +915,31 @@ func tokens(s string) ([]string, map[string]string) {
 	return keys, m
 }
 
+// parseStored reads a stored double: NaN, +Inf, -Inf or a rational (which may denote a denormal).
+func parseStored(s string) (float64, bool) {
+	switch s {
+	case "NaN":
+		return math.NaN(), true
+	case "+Inf":
+		return math.Inf(1), true
+	case "-Inf":
+		return math.Inf(-1), true
+	}
+	return parseRatFloat(s)
+}
+
 func closeEnough(model string, impl float64) bool {
+	switch model {
+	case "NaN":
+		return math.IsNaN(impl)
+	case "+Inf":
+		return math.IsInf(impl, 1)
+	case "-Inf":
+		return math.IsInf(impl, -1)
+	}
+	if math.IsNaN(impl) || math.IsInf(impl, 0) {
+		return false
+	}
 	mf, ok := parseRatFloat(model)
 	if !ok {
 		return false
